@@ -34,6 +34,9 @@ def effective(o):
     eff = []
     for s, k in enumerate(("in", "out", "err")):
         ty = o.get(k, R_DEFAULT)
+        if o.get("h%sfd" % k) is not None:
+            eff.append("self:%d" % o["h%sfd" % k])   # the caller's own descriptor N given as the handle
+            continue
         if ty == R_DEFAULT:
             if s > 0 and o.get("rfile"):
                 ty = "sfile"
@@ -58,11 +61,22 @@ def gen_c10(tier, seed):
     combos += [{}, {"rparent": 1}, {"rdiscard": 1}, {"rfile": 1}, {"rpath": 1},
                {"rparent": 1, "in": R_PIPE}, {"rdiscard": 1, "err": R_PIPE}, {"rfile": 1, "in": R_DISCARD},
                {"rpath": 1, "in": R_PATH}, {"in": R_HANDLE, "rdiscard": 1}]
+    # the caller's own standard descriptors passed as handles (the shell's 1>&2, 2>&1); descriptor 0
+    # cannot be passed this way: a zero handle means "not set"
+    SELF = [{"houtfd": 2}, {"houtfd": 2, "err": R_STDOUT}, {"houtfd": 2, "herrfd": 2}, {"houtfd": 2, "err": R_PIPE},
+            {"houtfd": 2, "err": R_DISCARD}, {"herrfd": 1}, {"herrfd": 1, "out": R_PIPE}, {"herrfd": 1, "out": R_DISCARD},
+            {"houtfd": 1}, {"herrfd": 2}, {"herrfd": 1, "houtfd": 1}, {"houtfd": 2, "herrfd": 1},
+            {"hinfd": 1, "out": R_DISCARD}, {"hinfd": 2, "houtfd": 2, "herrfd": 1},
+            {"houtfd": 2, "in": R_PIPE, "err": R_PARENT}]
+    combos += SELF
     cases = []
     idx = 0
     masks = range(8)
     for ci, o in enumerate(combos):
+        used = [o[k] for k in ("hinfd", "houtfd", "herrfd") if k in o]
         for mask in list(masks) + [8]:
+            if mask < 8 and any(mask & (1 << fd) for fd in used):
+                continue   # passing a closed descriptor as a handle is not a valid configuration
             opts = dict(o, nb=1, ident=1, stop=KILL_POLICY)
             parts = []
             if mask and mask < 8:
@@ -161,6 +175,11 @@ def judge_c10(case, log):
             f1 = fds.get(1)
             if f1 is None or (dev, ino) != (f1[1], f1[2]):
                 bad("stderr-not-childs-stdout", "stderr (%s,%s) differs from the child's stdout %s" % (dev, ino, f1 and (f1[1], f1[2])))
+        elif isinstance(ty, str) and ty.startswith("self:"):
+            n = int(ty[5:])
+            obs["self_handles"] = obs.get("self_handles", 0) + 1
+            if n in std and (dev, ino) != tuple(std[n]):
+                bad("not-the-given-descriptor", "expected the caller's descriptor %d %s, got (%s,%s)" % (n, std[n], dev, ino))
         else:
             kind = {R_HANDLE: "handle", R_FILE: "file", R_PATH: "path", "sfile": "sfile", "spath": "spath"}[ty]
             want = [ob for ob in objs if ob[1] == kind and (ob[0] == st or ob[0] == -1)]
@@ -306,6 +325,9 @@ def gen_c03(tier, seed):
         for _ in range(nextra):
             name = r.choice([b"A", b"PATH2", b"K0", b"X_Y", b"A"])  # duplicates on purpose
             extra.append(name + b"=" + rand_str(r))
+        if extra and r.random() < 0.08:
+            # entries the block formats make awkward: no '=', or nothing at all (not last)
+            extra.insert(r.randrange(len(extra)), r.choice([b"NOEQUALS", b"", b"=", b"=x"]))
         o["env"] = behavior
         if extra or r.random() < 0.5:
             o["envx"] = ",".join(hx(e) for e in extra) if extra else "-"
